@@ -12,6 +12,9 @@ PROGRAMS = [
     "listen to Arr at 0\nlisten to Arr at \"k\"\nsay Arr at 0\nsay Arr at \"k\"\nsay Arr\n",
     "listen to it\n",
     "say 1\nsay 2\nsay X\nsay 3\n",
+    # texts that themselves end in (or consist of) line feeds and carriage returns: still text + exactly one terminator
+    "say \"line\n\"\nsay \"a\n\n\"\nsay \"\n\"\nlet X be 10\ncast X\nsay X\nsay \"a\" with X\nsay X with X\nlet R be 13\ncast R\nsay R\nsay \"r\" with R with X\nsay \"end\"\n",
+    "listen to X\nsay X\nsay X with \"\n\"\nsay \"\"\nsay \" \"\nsay \"\t\"\n",
 ]
 INPUTS = ["", "one\ntwo\nthree\n", "no newline at end", "\n\nblank lines\n\n", "ünï\nçödé\n", "a\r\nb\r\n", "x" * 40 + "\n" + "y" * 10,
           "trailing  \n\ttabs\t\n   \nnbsp\u00a0\n  lead\n", " \u2003\u3000\n\x0b\x0c\n\r\r\n"]
